@@ -141,7 +141,7 @@ impl Session {
         let deadline = Instant::now() + limit;
         let mut ok_since: Option<(Instant, usize)> = None;
         loop {
-            let ev = trace::since(from);
+            let ev = since(from);
             let c = counts(&ev);
             if cond(&c) && settled(&c) {
                 match ok_since {
@@ -180,6 +180,12 @@ impl Session {
 
 struct C25 {
     session: Option<Result<Session, String>>,
+}
+
+/// The shared trace facility also carries events of other components (the relay actor's
+/// `relay-actor …` lines, added for C26); C25 looks only at the net-report scheduler's events.
+fn since(from: usize) -> Vec<String> {
+    trace::since(from).into_iter().filter(|e| !e.starts_with("relay-actor ")).collect()
 }
 
 /// Events that only the oracle looks at (not part of the scheduler's decision trace).
@@ -334,7 +340,7 @@ impl C25 {
                     }
                 }
                 (Some('q'), _) => {
-                    let want = counts(&trace::since(from)).trigger + 1;
+                    let want = counts(&since(from)).trigger + 1;
                     if parked_total() > 0 {
                         overlap_seen = true;
                     }
@@ -345,7 +351,7 @@ impl C25 {
             }
         }
         timeout |= !sess.quiesce();
-        let ev = trace::since(from);
+        let ev = since(from);
         deferred_seen |= ev.iter().any(|e| e.ends_with(" deferred"));
         let mut labs = labels(&ev);
         let mut out = ev.iter().filter(|e| !oracle_only(e)).cloned().collect::<Vec<_>>().join(";");
